@@ -209,6 +209,579 @@ theorem parseStmts_byte_decimal (cfg : PCfg) (f : Nat) (n : Nat) :
   simp [hpd, parseStmts, ptrim, ptrimL, ptrimR]
   rfl
 
+theorem parseStmts_zero_decimal (cfg : PCfg) (f : Nat) (n : Nat) :
+    parseStmts cfg (f + 2) (".zero ".toList ++ Nat.toDigits 10 n) = .ok [.fill (.num n) (.num 0)] := by
+  have hds := decimal_chars n
+  have hne : Nat.toDigits 10 n ≠ [] := Nat.toDigits_ne_nil
+  generalize hD : Nat.toDigits 10 n = ds at hds hne
+  have hpe : parseExprText ds = .ok (.num n) := by rw [← hD]; exact parseExprText_decimal n
+  obtain ⟨dl, hdl⟩ : ∃ dl, ds.getLast? = some dl := by
+    cases h : ds.getLast? with
+    | none => simp at h; contradiction
+    | some dl => exact ⟨dl, rfl⟩
+  have hdlf := digit_facts dl (hds dl (List.mem_of_getLast? hdl))
+  have hnosp : ∀ c ∈ ds, isSpaceChar c = false := fun c hc => (digit_facts c (hds c hc)).1
+  have ht : ptrim (".zero ".toList ++ ds) = ".zero ".toList ++ ds := by
+    unfold ptrim
+    have h1 : ptrimL (".zero ".toList ++ ds) = ".zero ".toList ++ ds := by
+      show ptrimL ('.' :: ('z' :: 'e' :: 'r' :: 'o' :: ' ' :: ds)) = _
+      exact ptrimL_cons_nonspace _ _ (by decide)
+    rw [h1]
+    have hl' : (".zero ".toList ++ ds).getLast? = some dl := by
+      rw [List.getLast?_append, hdl]; rfl
+    have := ptrimR_append_last (".zero ".toList ++ ds) [] dl hl' hdlf.1
+    simpa [ptrimR_nil] using this
+  have hn : takeName (".zero".toList ++ ' ' :: ds) = (".zero".toList, ' ' :: ds) :=
+    takeName_name _ _ (by decide) (by intro c hc; simp at hc; subst hc; decide)
+  have hcut : cutAtLabelDef [] (' ' :: ds) = (' ' :: ds, []) := by
+    rw [cutAtLabelDef]
+    have hns : startsLabelDef (ptrimL ds) = false := by
+      apply startsLabelDef_no_colon
+      intro c hc
+      have hc' : c ∈ ds := by
+        unfold ptrimL at hc; exact (List.dropWhile_sublist _).subset hc
+      exact (digit_facts c (hds c hc')).2.1
+    simp only [hns, Bool.and_false, Bool.false_eq_true, if_false]
+    rw [cutAtLabelDef_nospace _ _ hnosp]
+    simp
+  have hown : ptrim (' ' :: ds) = ds := by
+    obtain _ | ⟨d0, ds'⟩ := ds
+    · contradiction
+    have h0 : isSpaceChar d0 = false := hnosp d0 (List.mem_cons_self ..)
+    unfold ptrim
+    have : ptrimL (' ' :: d0 :: ds') = d0 :: ds' := by
+      simp [ptrimL, h0, show isSpaceChar ' ' = true by decide]
+    rw [this]
+    have := ptrimR_append_last (d0 :: ds') [] dl hdl hdlf.1
+    simpa [ptrimR_nil] using this
+  have hlow : lowerS ".zero".toList = ".zero" := by rw [lowerS_eq]; decide
+  rw [parseStmts]
+  simp only [ht]
+  have e1 : ".zero ".toList ++ ds = '.' :: ("zero".toList ++ ' ' :: ds) := by simp
+  have hn' : takeName ('.' :: ("zero".toList ++ ' ' :: ds)) = (".zero".toList, ' ' :: ds) := by
+    have : '.' :: ("zero".toList ++ ' ' :: ds) = ".zero".toList ++ ' ' :: ds := by simp
+    rw [this]; exact hn
+  rw [e1]
+  simp only [hn', hlow]
+  simp only [hcut, hown]
+  simp [hpe, parseStmts, ptrim, ptrimL, ptrimR]
+  rfl
+
+
+
+theorem parseStmts_zerountil_decimal (cfg : PCfg) (f : Nat) (n : Nat) :
+    parseStmts cfg (f + 2) (".zerountil ".toList ++ Nat.toDigits 10 n) = .ok [.zerountil (.num n)] := by
+  have hds := decimal_chars n
+  have hne : Nat.toDigits 10 n ≠ [] := Nat.toDigits_ne_nil
+  generalize hD : Nat.toDigits 10 n = ds at hds hne
+  have hpe : parseExprText ds = .ok (.num n) := by rw [← hD]; exact parseExprText_decimal n
+  obtain ⟨dl, hdl⟩ : ∃ dl, ds.getLast? = some dl := by
+    cases h : ds.getLast? with
+    | none => simp at h; contradiction
+    | some dl => exact ⟨dl, rfl⟩
+  have hdlf := digit_facts dl (hds dl (List.mem_of_getLast? hdl))
+  have hnosp : ∀ c ∈ ds, isSpaceChar c = false := fun c hc => (digit_facts c (hds c hc)).1
+  have ht : ptrim (".zerountil ".toList ++ ds) = ".zerountil ".toList ++ ds := by
+    unfold ptrim
+    have h1 : ptrimL (".zerountil ".toList ++ ds) = ".zerountil ".toList ++ ds := by
+      show ptrimL ('.' :: ('z' :: 'e' :: 'r' :: 'o' :: 'u' :: 'n' :: 't' :: 'i' :: 'l' :: ' ' :: ds)) = _
+      exact ptrimL_cons_nonspace _ _ (by decide)
+    rw [h1]
+    have hl' : (".zerountil ".toList ++ ds).getLast? = some dl := by
+      rw [List.getLast?_append, hdl]; rfl
+    have := ptrimR_append_last (".zerountil ".toList ++ ds) [] dl hl' hdlf.1
+    simpa [ptrimR_nil] using this
+  have hn : takeName (".zerountil".toList ++ ' ' :: ds) = (".zerountil".toList, ' ' :: ds) :=
+    takeName_name _ _ (by decide) (by intro c hc; simp at hc; subst hc; decide)
+  have hcut : cutAtLabelDef [] (' ' :: ds) = (' ' :: ds, []) := by
+    rw [cutAtLabelDef]
+    have hns : startsLabelDef (ptrimL ds) = false := by
+      apply startsLabelDef_no_colon
+      intro c hc
+      have hc' : c ∈ ds := by
+        unfold ptrimL at hc; exact (List.dropWhile_sublist _).subset hc
+      exact (digit_facts c (hds c hc')).2.1
+    simp only [hns, Bool.and_false, Bool.false_eq_true, if_false]
+    rw [cutAtLabelDef_nospace _ _ hnosp]
+    simp
+  have hown : ptrim (' ' :: ds) = ds := by
+    obtain _ | ⟨d0, ds'⟩ := ds
+    · contradiction
+    have h0 : isSpaceChar d0 = false := hnosp d0 (List.mem_cons_self ..)
+    unfold ptrim
+    have : ptrimL (' ' :: d0 :: ds') = d0 :: ds' := by
+      simp [ptrimL, h0, show isSpaceChar ' ' = true by decide]
+    rw [this]
+    have := ptrimR_append_last (d0 :: ds') [] dl hdl hdlf.1
+    simpa [ptrimR_nil] using this
+  have hlow : lowerS ".zerountil".toList = ".zerountil" := by rw [lowerS_eq]; decide
+  rw [parseStmts]
+  simp only [ht]
+  have e1 : ".zerountil ".toList ++ ds = '.' :: ("zerountil".toList ++ ' ' :: ds) := by simp
+  have hn' : takeName ('.' :: ("zerountil".toList ++ ' ' :: ds)) = (".zerountil".toList, ' ' :: ds) := by
+    have : '.' :: ("zerountil".toList ++ ' ' :: ds) = ".zerountil".toList ++ ' ' :: ds := by simp
+    rw [this]; exact hn
+  rw [e1]
+  simp only [hn', hlow]
+  simp only [hcut, hown]
+  simp [hpe, parseStmts, ptrim, ptrimL, ptrimR]
+  rfl
+
+theorem parseStmts_align_decimal (cfg : PCfg) (f : Nat) (n : Nat) :
+    parseStmts cfg (f + 2) (".align ".toList ++ Nat.toDigits 10 n) = .ok [.align (some (.num n))] := by
+  have hds := decimal_chars n
+  have hne : Nat.toDigits 10 n ≠ [] := Nat.toDigits_ne_nil
+  generalize hD : Nat.toDigits 10 n = ds at hds hne
+  have hpe : parseExprText ds = .ok (.num n) := by rw [← hD]; exact parseExprText_decimal n
+  obtain ⟨dl, hdl⟩ : ∃ dl, ds.getLast? = some dl := by
+    cases h : ds.getLast? with
+    | none => simp at h; contradiction
+    | some dl => exact ⟨dl, rfl⟩
+  have hdlf := digit_facts dl (hds dl (List.mem_of_getLast? hdl))
+  have hnosp : ∀ c ∈ ds, isSpaceChar c = false := fun c hc => (digit_facts c (hds c hc)).1
+  have ht : ptrim (".align ".toList ++ ds) = ".align ".toList ++ ds := by
+    unfold ptrim
+    have h1 : ptrimL (".align ".toList ++ ds) = ".align ".toList ++ ds := by
+      show ptrimL ('.' :: ('a' :: 'l' :: 'i' :: 'g' :: 'n' :: ' ' :: ds)) = _
+      exact ptrimL_cons_nonspace _ _ (by decide)
+    rw [h1]
+    have hl' : (".align ".toList ++ ds).getLast? = some dl := by
+      rw [List.getLast?_append, hdl]; rfl
+    have := ptrimR_append_last (".align ".toList ++ ds) [] dl hl' hdlf.1
+    simpa [ptrimR_nil] using this
+  have hn : takeName (".align".toList ++ ' ' :: ds) = (".align".toList, ' ' :: ds) :=
+    takeName_name _ _ (by decide) (by intro c hc; simp at hc; subst hc; decide)
+  have hcut : cutAtLabelDef [] (' ' :: ds) = (' ' :: ds, []) := by
+    rw [cutAtLabelDef]
+    have hns : startsLabelDef (ptrimL ds) = false := by
+      apply startsLabelDef_no_colon
+      intro c hc
+      have hc' : c ∈ ds := by
+        unfold ptrimL at hc; exact (List.dropWhile_sublist _).subset hc
+      exact (digit_facts c (hds c hc')).2.1
+    simp only [hns, Bool.and_false, Bool.false_eq_true, if_false]
+    rw [cutAtLabelDef_nospace _ _ hnosp]
+    simp
+  have hown : ptrim (' ' :: ds) = ds := by
+    obtain _ | ⟨d0, ds'⟩ := ds
+    · contradiction
+    have h0 : isSpaceChar d0 = false := hnosp d0 (List.mem_cons_self ..)
+    unfold ptrim
+    have : ptrimL (' ' :: d0 :: ds') = d0 :: ds' := by
+      simp [ptrimL, h0, show isSpaceChar ' ' = true by decide]
+    rw [this]
+    have := ptrimR_append_last (d0 :: ds') [] dl hdl hdlf.1
+    simpa [ptrimR_nil] using this
+  have hlow : lowerS ".align".toList = ".align" := by rw [lowerS_eq]; decide
+  rw [parseStmts]
+  simp only [ht]
+  have e1 : ".align ".toList ++ ds = '.' :: ("align".toList ++ ' ' :: ds) := by simp
+  have hn' : takeName ('.' :: ("align".toList ++ ' ' :: ds)) = (".align".toList, ' ' :: ds) := by
+    have : '.' :: ("align".toList ++ ' ' :: ds) = ".align".toList ++ ' ' :: ds := by simp
+    rw [this]; exact hn
+  rw [e1]
+  simp only [hn', hlow]
+  have hne2 : ds.isEmpty = false := by cases ds <;> simp_all
+  simp only [hown, hne2]
+  simp only [hcut, hown, hne2]
+  simp [hpe, parseStmts, ptrim, ptrimL, ptrimR]
+  rfl
+
+/-- round trip of the simplest data line: `.2byte` followed by the decimal spelling of a value -/
+theorem parseStmts_2byte_decimal (cfg : PCfg) (f : Nat) (n : Nat) :
+    parseStmts cfg (f + 2) (".2byte ".toList ++ Nat.toDigits 10 n) = .ok [.data 2 [.num n]] := by
+  have hds := decimal_chars n
+  have hne : Nat.toDigits 10 n ≠ [] := Nat.toDigits_ne_nil
+  generalize hD : Nat.toDigits 10 n = ds at hds hne
+  have hpe : parseExprText ds = .ok (.num n) := by rw [← hD]; exact parseExprText_decimal n
+  obtain ⟨dl, hdl⟩ : ∃ dl, ds.getLast? = some dl := by
+    cases h : ds.getLast? with
+    | none => simp at h; contradiction
+    | some dl => exact ⟨dl, rfl⟩
+  have hdlf := digit_facts dl (hds dl (List.mem_of_getLast? hdl))
+  have hnosp : ∀ c ∈ ds, isSpaceChar c = false := fun c hc => (digit_facts c (hds c hc)).1
+  obtain _ | ⟨d0, ds'⟩ := ds
+  · contradiction
+  have hd0 := hds d0 (List.mem_cons_self ..)
+  have h0 : isSpaceChar d0 = false := hnosp d0 (List.mem_cons_self ..)
+  have hq0 : isQuote d0 = false := by
+    cases hq : isQuote d0 with
+    | false => rfl
+    | true =>
+      simp only [isQuote, Bool.or_eq_true, beq_iff_eq] at hq
+      rcases hq with rfl | rfl <;> simp [Char.isDigit] at hd0
+  have ht : ptrim (".2byte ".toList ++ d0 :: ds') = ".2byte ".toList ++ d0 :: ds' := by
+    unfold ptrim
+    have h1 : ptrimL (".2byte ".toList ++ d0 :: ds') = ".2byte ".toList ++ d0 :: ds' := by
+      show ptrimL ('.' :: ('2' :: 'b' :: 'y' :: 't' :: 'e' :: ' ' :: d0 :: ds')) = _
+      exact ptrimL_cons_nonspace _ _ (by decide)
+    rw [h1]
+    have hl' : (".2byte ".toList ++ d0 :: ds').getLast? = some dl := by
+      rw [List.getLast?_append, hdl]; rfl
+    have := ptrimR_append_last (".2byte ".toList ++ d0 :: ds') [] dl hl' hdlf.1
+    simpa [ptrimR_nil] using this
+  have hn' : takeName ('.' :: ("2byte".toList ++ ' ' :: d0 :: ds')) = (".2byte".toList, ' ' :: d0 :: ds') := by
+    have : '.' :: ("2byte".toList ++ ' ' :: d0 :: ds') = ".2byte".toList ++ ' ' :: d0 :: ds' := by simp
+    rw [this]
+    exact takeName_name _ _ (by decide) (by intro c hc; simp at hc; subst hc; decide)
+  have hlow : lowerS ".2byte".toList = ".2byte" := by rw [lowerS_eq]; decide
+  have hown : ptrim (' ' :: d0 :: ds') = d0 :: ds' := by
+    unfold ptrim
+    have : ptrimL (' ' :: d0 :: ds') = d0 :: ds' := by
+      simp [ptrimL, h0, show isSpaceChar ' ' = true by decide]
+    rw [this]
+    have := ptrimR_append_last (d0 :: ds') [] dl hdl hdlf.1
+    simpa [ptrimR_nil] using this
+  have hsplit : splitCommas (d0 :: ds') = [d0 :: ds'] := by
+    unfold splitCommas
+    rw [splitCommasAux_plain [] _ (fun c hc => by
+      have hcd := hds c hc
+      constructor <;> (rintro rfl; simp [Char.isDigit] at hcd))]
+    simp
+  have hpd : parseData cfg 2 none (' ' :: d0 :: ds') = .ok (.data 2 [.num n], []) := by
+    unfold parseData
+    have hpl : ptrimL (' ' :: d0 :: ds') = d0 :: ds' := by
+      simp [ptrimL, h0, show isSpaceChar ' ' = true by decide]
+    simp only [hpl, hq0, Bool.false_eq_true, if_false, Option.isSome_none]
+    have hpt : ptrim (d0 :: ds') = d0 :: ds' := by
+      unfold ptrim
+      rw [ptrimL_cons_nonspace _ _ h0]
+      have := ptrimR_append_last (d0 :: ds') [] dl hdl hdlf.1
+      simpa [ptrimR_nil] using this
+    rw [hpt, hsplit]
+    have hne' : (ptrim (d0 :: ds')).isEmpty = false := by rw [hpt]; rfl
+    simp [hpt, hpe, List.filter]
+    rfl
+  rw [parseStmts]
+  simp only [ht]
+  have e1 : ".2byte ".toList ++ d0 :: ds' = '.' :: ("2byte".toList ++ ' ' :: d0 :: ds') := by simp
+  rw [e1]
+  simp only [hn', hlow]
+  simp [hpd, parseStmts, ptrim, ptrimL, ptrimR]
+  rfl
+
+
+/-- round trip of the simplest data line: `.4byte` followed by the decimal spelling of a value -/
+theorem parseStmts_4byte_decimal (cfg : PCfg) (f : Nat) (n : Nat) :
+    parseStmts cfg (f + 2) (".4byte ".toList ++ Nat.toDigits 10 n) = .ok [.data 4 [.num n]] := by
+  have hds := decimal_chars n
+  have hne : Nat.toDigits 10 n ≠ [] := Nat.toDigits_ne_nil
+  generalize hD : Nat.toDigits 10 n = ds at hds hne
+  have hpe : parseExprText ds = .ok (.num n) := by rw [← hD]; exact parseExprText_decimal n
+  obtain ⟨dl, hdl⟩ : ∃ dl, ds.getLast? = some dl := by
+    cases h : ds.getLast? with
+    | none => simp at h; contradiction
+    | some dl => exact ⟨dl, rfl⟩
+  have hdlf := digit_facts dl (hds dl (List.mem_of_getLast? hdl))
+  have hnosp : ∀ c ∈ ds, isSpaceChar c = false := fun c hc => (digit_facts c (hds c hc)).1
+  obtain _ | ⟨d0, ds'⟩ := ds
+  · contradiction
+  have hd0 := hds d0 (List.mem_cons_self ..)
+  have h0 : isSpaceChar d0 = false := hnosp d0 (List.mem_cons_self ..)
+  have hq0 : isQuote d0 = false := by
+    cases hq : isQuote d0 with
+    | false => rfl
+    | true =>
+      simp only [isQuote, Bool.or_eq_true, beq_iff_eq] at hq
+      rcases hq with rfl | rfl <;> simp [Char.isDigit] at hd0
+  have ht : ptrim (".4byte ".toList ++ d0 :: ds') = ".4byte ".toList ++ d0 :: ds' := by
+    unfold ptrim
+    have h1 : ptrimL (".4byte ".toList ++ d0 :: ds') = ".4byte ".toList ++ d0 :: ds' := by
+      show ptrimL ('.' :: ('4' :: 'b' :: 'y' :: 't' :: 'e' :: ' ' :: d0 :: ds')) = _
+      exact ptrimL_cons_nonspace _ _ (by decide)
+    rw [h1]
+    have hl' : (".4byte ".toList ++ d0 :: ds').getLast? = some dl := by
+      rw [List.getLast?_append, hdl]; rfl
+    have := ptrimR_append_last (".4byte ".toList ++ d0 :: ds') [] dl hl' hdlf.1
+    simpa [ptrimR_nil] using this
+  have hn' : takeName ('.' :: ("4byte".toList ++ ' ' :: d0 :: ds')) = (".4byte".toList, ' ' :: d0 :: ds') := by
+    have : '.' :: ("4byte".toList ++ ' ' :: d0 :: ds') = ".4byte".toList ++ ' ' :: d0 :: ds' := by simp
+    rw [this]
+    exact takeName_name _ _ (by decide) (by intro c hc; simp at hc; subst hc; decide)
+  have hlow : lowerS ".4byte".toList = ".4byte" := by rw [lowerS_eq]; decide
+  have hown : ptrim (' ' :: d0 :: ds') = d0 :: ds' := by
+    unfold ptrim
+    have : ptrimL (' ' :: d0 :: ds') = d0 :: ds' := by
+      simp [ptrimL, h0, show isSpaceChar ' ' = true by decide]
+    rw [this]
+    have := ptrimR_append_last (d0 :: ds') [] dl hdl hdlf.1
+    simpa [ptrimR_nil] using this
+  have hsplit : splitCommas (d0 :: ds') = [d0 :: ds'] := by
+    unfold splitCommas
+    rw [splitCommasAux_plain [] _ (fun c hc => by
+      have hcd := hds c hc
+      constructor <;> (rintro rfl; simp [Char.isDigit] at hcd))]
+    simp
+  have hpd : parseData cfg 4 none (' ' :: d0 :: ds') = .ok (.data 4 [.num n], []) := by
+    unfold parseData
+    have hpl : ptrimL (' ' :: d0 :: ds') = d0 :: ds' := by
+      simp [ptrimL, h0, show isSpaceChar ' ' = true by decide]
+    simp only [hpl, hq0, Bool.false_eq_true, if_false, Option.isSome_none]
+    have hpt : ptrim (d0 :: ds') = d0 :: ds' := by
+      unfold ptrim
+      rw [ptrimL_cons_nonspace _ _ h0]
+      have := ptrimR_append_last (d0 :: ds') [] dl hdl hdlf.1
+      simpa [ptrimR_nil] using this
+    rw [hpt, hsplit]
+    have hne' : (ptrim (d0 :: ds')).isEmpty = false := by rw [hpt]; rfl
+    simp [hpt, hpe, List.filter]
+    rfl
+  rw [parseStmts]
+  simp only [ht]
+  have e1 : ".4byte ".toList ++ d0 :: ds' = '.' :: ("4byte".toList ++ ' ' :: d0 :: ds') := by simp
+  rw [e1]
+  simp only [hn', hlow]
+  simp [hpd, parseStmts, ptrim, ptrimL, ptrimR]
+  rfl
+
+
+/-- round trip of the simplest data line: `.8byte` followed by the decimal spelling of a value -/
+theorem parseStmts_8byte_decimal (cfg : PCfg) (f : Nat) (n : Nat) :
+    parseStmts cfg (f + 2) (".8byte ".toList ++ Nat.toDigits 10 n) = .ok [.data 8 [.num n]] := by
+  have hds := decimal_chars n
+  have hne : Nat.toDigits 10 n ≠ [] := Nat.toDigits_ne_nil
+  generalize hD : Nat.toDigits 10 n = ds at hds hne
+  have hpe : parseExprText ds = .ok (.num n) := by rw [← hD]; exact parseExprText_decimal n
+  obtain ⟨dl, hdl⟩ : ∃ dl, ds.getLast? = some dl := by
+    cases h : ds.getLast? with
+    | none => simp at h; contradiction
+    | some dl => exact ⟨dl, rfl⟩
+  have hdlf := digit_facts dl (hds dl (List.mem_of_getLast? hdl))
+  have hnosp : ∀ c ∈ ds, isSpaceChar c = false := fun c hc => (digit_facts c (hds c hc)).1
+  obtain _ | ⟨d0, ds'⟩ := ds
+  · contradiction
+  have hd0 := hds d0 (List.mem_cons_self ..)
+  have h0 : isSpaceChar d0 = false := hnosp d0 (List.mem_cons_self ..)
+  have hq0 : isQuote d0 = false := by
+    cases hq : isQuote d0 with
+    | false => rfl
+    | true =>
+      simp only [isQuote, Bool.or_eq_true, beq_iff_eq] at hq
+      rcases hq with rfl | rfl <;> simp [Char.isDigit] at hd0
+  have ht : ptrim (".8byte ".toList ++ d0 :: ds') = ".8byte ".toList ++ d0 :: ds' := by
+    unfold ptrim
+    have h1 : ptrimL (".8byte ".toList ++ d0 :: ds') = ".8byte ".toList ++ d0 :: ds' := by
+      show ptrimL ('.' :: ('8' :: 'b' :: 'y' :: 't' :: 'e' :: ' ' :: d0 :: ds')) = _
+      exact ptrimL_cons_nonspace _ _ (by decide)
+    rw [h1]
+    have hl' : (".8byte ".toList ++ d0 :: ds').getLast? = some dl := by
+      rw [List.getLast?_append, hdl]; rfl
+    have := ptrimR_append_last (".8byte ".toList ++ d0 :: ds') [] dl hl' hdlf.1
+    simpa [ptrimR_nil] using this
+  have hn' : takeName ('.' :: ("8byte".toList ++ ' ' :: d0 :: ds')) = (".8byte".toList, ' ' :: d0 :: ds') := by
+    have : '.' :: ("8byte".toList ++ ' ' :: d0 :: ds') = ".8byte".toList ++ ' ' :: d0 :: ds' := by simp
+    rw [this]
+    exact takeName_name _ _ (by decide) (by intro c hc; simp at hc; subst hc; decide)
+  have hlow : lowerS ".8byte".toList = ".8byte" := by rw [lowerS_eq]; decide
+  have hown : ptrim (' ' :: d0 :: ds') = d0 :: ds' := by
+    unfold ptrim
+    have : ptrimL (' ' :: d0 :: ds') = d0 :: ds' := by
+      simp [ptrimL, h0, show isSpaceChar ' ' = true by decide]
+    rw [this]
+    have := ptrimR_append_last (d0 :: ds') [] dl hdl hdlf.1
+    simpa [ptrimR_nil] using this
+  have hsplit : splitCommas (d0 :: ds') = [d0 :: ds'] := by
+    unfold splitCommas
+    rw [splitCommasAux_plain [] _ (fun c hc => by
+      have hcd := hds c hc
+      constructor <;> (rintro rfl; simp [Char.isDigit] at hcd))]
+    simp
+  have hpd : parseData cfg 8 none (' ' :: d0 :: ds') = .ok (.data 8 [.num n], []) := by
+    unfold parseData
+    have hpl : ptrimL (' ' :: d0 :: ds') = d0 :: ds' := by
+      simp [ptrimL, h0, show isSpaceChar ' ' = true by decide]
+    simp only [hpl, hq0, Bool.false_eq_true, if_false, Option.isSome_none]
+    have hpt : ptrim (d0 :: ds') = d0 :: ds' := by
+      unfold ptrim
+      rw [ptrimL_cons_nonspace _ _ h0]
+      have := ptrimR_append_last (d0 :: ds') [] dl hdl hdlf.1
+      simpa [ptrimR_nil] using this
+    rw [hpt, hsplit]
+    have hne' : (ptrim (d0 :: ds')).isEmpty = false := by rw [hpt]; rfl
+    simp [hpt, hpe, List.filter]
+    rfl
+  rw [parseStmts]
+  simp only [ht]
+  have e1 : ".8byte ".toList ++ d0 :: ds' = '.' :: ("8byte".toList ++ ' ' :: d0 :: ds') := by simp
+  rw [e1]
+  simp only [hn', hlow]
+  simp [hpd, parseStmts, ptrim, ptrimL, ptrimR]
+  rfl
+
+theorem splitCommas_two (a b : List Char) (ha : ∀ c ∈ a, c ≠ ',' ∧ c ≠ '\'') (hb : ∀ c ∈ b, c ≠ ',' ∧ c ≠ '\'') :
+    splitCommas (a ++ ',' :: b) = [a, b] := by
+  unfold splitCommas
+  have h1 : ∀ cur, splitCommasAux cur (a ++ ',' :: b) = (cur.reverse ++ a) :: splitCommasAux [] b := by
+    induction a with
+    | nil => intro cur; simp [aux_comma]
+    | cons c a ih =>
+      intro cur
+      have hc := ha c (List.mem_cons_self ..)
+      rw [List.cons_append, aux_other cur c _ hc.1 hc.2, ih (fun x hx => ha x (List.mem_cons_of_mem _ hx))]
+      simp
+  rw [h1, splitCommasAux_plain [] b hb]
+  simp
+
+/-- round trip of a fill line: `.fill N,V` with decimal numerals -/
+theorem parseStmts_fill_decimal (cfg : PCfg) (f : Nat) (n v : Nat) :
+    parseStmts cfg (f + 2) (".fill ".toList ++ Nat.toDigits 10 n ++ ',' :: Nat.toDigits 10 v) = .ok [.fill (.num n) (.num v)] := by
+  have hdn := decimal_chars n
+  have hdv := decimal_chars v
+  have hnn : Nat.toDigits 10 n ≠ [] := Nat.toDigits_ne_nil
+  have hnv : Nat.toDigits 10 v ≠ [] := Nat.toDigits_ne_nil
+  have hpn : parseExprText (Nat.toDigits 10 n) = .ok (.num n) := parseExprText_decimal n
+  have hpv : parseExprText (Nat.toDigits 10 v) = .ok (.num v) := parseExprText_decimal v
+  generalize Nat.toDigits 10 n = dn at *
+  generalize Nat.toDigits 10 v = dv at *
+  -- the argument text
+  have harg : ∀ c ∈ dn ++ ',' :: dv, isSpaceChar c = false ∧ c ≠ ':' ∧ c ≠ '"' := by
+    intro c hc
+    simp only [List.mem_append, List.mem_cons] at hc
+    rcases hc with hc | rfl | hc
+    · have := digit_facts c (hdn c hc); exact ⟨this.1, this.2.1, this.2.2.1⟩
+    · decide
+    · have := digit_facts c (hdv c hc); exact ⟨this.1, this.2.1, this.2.2.1⟩
+  obtain ⟨dl, hdl⟩ : ∃ dl, dv.getLast? = some dl := by
+    cases h : dv.getLast? with
+    | none => simp at h; contradiction
+    | some dl => exact ⟨dl, rfl⟩
+  have hdlf := digit_facts dl (hdv dl (List.mem_of_getLast? hdl))
+  have hsp : splitCommas (dn ++ ',' :: dv) = [dn, dv] := by
+    apply splitCommas_two
+    · intro c hc; have := hdn c hc; constructor <;> (rintro rfl; simp [Char.isDigit] at this)
+    · intro c hc; have := hdv c hc; constructor <;> (rintro rfl; simp [Char.isDigit] at this)
+  have htn : ptrim dn = dn := by
+    obtain ⟨l, hl⟩ : ∃ l, dn.getLast? = some l := by
+      cases h : dn.getLast? with
+      | none => simp at h; contradiction
+      | some l => exact ⟨l, rfl⟩
+    obtain _ | ⟨d0, dn'⟩ := dn
+    · contradiction
+    unfold ptrim
+    rw [ptrimL_cons_nonspace _ _ (digit_facts d0 (hdn d0 (List.mem_cons_self ..))).1]
+    have := ptrimR_append_last (d0 :: dn') [] l hl (digit_facts l (hdn l (List.mem_of_getLast? hl))).1
+    simpa [ptrimR_nil] using this
+  have htv : ptrim dv = dv := by
+    obtain _ | ⟨d0, dv'⟩ := dv
+    · contradiction
+    unfold ptrim
+    rw [ptrimL_cons_nonspace _ _ (digit_facts d0 (hdv d0 (List.mem_cons_self ..))).1]
+    have := ptrimR_append_last (d0 :: dv') [] dl hdl hdlf.1
+    simpa [ptrimR_nil] using this
+  rw [List.append_assoc]
+  generalize hds : dn ++ ',' :: dv = ds at harg hsp
+  have hdsl : ds.getLast? = some dl := by
+    rw [← hds, List.getLast?_append]
+    cases dv with
+    | nil => contradiction
+    | cons d0 dv' => simpa [List.getLast?_cons_cons] using hdl
+  have hne : ds ≠ [] := by rw [← hds]; simp
+  have hnosp : ∀ c ∈ ds, isSpaceChar c = false := fun c hc => (harg c hc).1
+  have ht : ptrim (".fill ".toList ++ ds) = ".fill ".toList ++ ds := by
+    unfold ptrim
+    have h1 : ptrimL (".fill ".toList ++ ds) = ".fill ".toList ++ ds := by
+      show ptrimL ('.' :: ('f' :: 'i' :: 'l' :: 'l' :: ' ' :: ds)) = _
+      exact ptrimL_cons_nonspace _ _ (by decide)
+    rw [h1]
+    have hl' : (".fill ".toList ++ ds).getLast? = some dl := by
+      rw [List.getLast?_append, hdsl]; rfl
+    have := ptrimR_append_last (".fill ".toList ++ ds) [] dl hl' hdlf.1
+    simpa [ptrimR_nil] using this
+  have hn : takeName (".fill".toList ++ ' ' :: ds) = (".fill".toList, ' ' :: ds) :=
+    takeName_name _ _ (by decide) (by intro c hc; simp at hc; subst hc; decide)
+  have hcut : cutAtLabelDef [] (' ' :: ds) = (' ' :: ds, []) := by
+    rw [cutAtLabelDef]
+    have hns : startsLabelDef (ptrimL ds) = false := by
+      apply startsLabelDef_no_colon
+      intro c hc
+      have hc' : c ∈ ds := by
+        unfold ptrimL at hc; exact (List.dropWhile_sublist _).subset hc
+      exact (harg c hc').2.1
+    simp only [hns, Bool.and_false, Bool.false_eq_true, if_false]
+    rw [cutAtLabelDef_nospace _ _ hnosp]
+    simp
+  have hown : ptrim (' ' :: ds) = ds := by
+    obtain _ | ⟨d0, ds'⟩ := ds
+    · contradiction
+    have h0 : isSpaceChar d0 = false := hnosp d0 (List.mem_cons_self ..)
+    unfold ptrim
+    have : ptrimL (' ' :: d0 :: ds') = d0 :: ds' := by
+      simp [ptrimL, h0, show isSpaceChar ' ' = true by decide]
+    rw [this]
+    have := ptrimR_append_last (d0 :: ds') [] dl hdsl hdlf.1
+    simpa [ptrimR_nil] using this
+  have hlow : lowerS ".fill".toList = ".fill" := by rw [lowerS_eq]; decide
+  rw [parseStmts]
+  simp only [ht]
+  have e1 : ".fill ".toList ++ ds = '.' :: ("fill".toList ++ ' ' :: ds) := by simp
+  have hn' : takeName ('.' :: ("fill".toList ++ ' ' :: ds)) = (".fill".toList, ' ' :: ds) := by
+    have : '.' :: ("fill".toList ++ ' ' :: ds) = ".fill".toList ++ ' ' :: ds := by simp
+    rw [this]; exact hn
+  rw [e1]
+  simp only [hn', hlow]
+  simp only [hcut, hown, hsp, htn, htv, hpn, hpv]
+  simp [parseStmts, ptrim, ptrimL, ptrimR]
+  rfl
+
+/-- round trip of a constant definition: `name = N` with a decimal numeral -/
+theorem parseStmts_const_decimal (cfg : PCfg) (f : Nat) (w : List Char) (hw : NameText w) (hdot : w.head? ≠ some '.') (n : Nat) :
+    parseStmts cfg (f + 2) (w ++ " = ".toList ++ Nat.toDigits 10 n) = .ok [.const (String.ofList w) (.num n)] := by
+  have hds := decimal_chars n
+  have hne : Nat.toDigits 10 n ≠ [] := Nat.toDigits_ne_nil
+  have hpe : parseExprText (Nat.toDigits 10 n) = .ok (.num n) := parseExprText_decimal n
+  generalize Nat.toDigits 10 n = ds at *
+  obtain ⟨dl, hdl⟩ : ∃ dl, ds.getLast? = some dl := by
+    cases h : ds.getLast? with
+    | none => simp at h; contradiction
+    | some dl => exact ⟨dl, rfl⟩
+  have hdlf := digit_facts dl (hds dl (List.mem_of_getLast? hdl))
+  obtain ⟨hwne, hwall⟩ := hw
+  obtain _ | ⟨w0, w'⟩ := w
+  · contradiction
+  have hw0 : isNameChar w0 = true := hwall w0 (List.mem_cons_self ..)
+  have hw0s : isSpaceChar w0 = false := by
+    cases hs : isSpaceChar w0 with
+    | false => rfl
+    | true =>
+      simp only [isSpaceChar, Bool.or_eq_true, beq_iff_eq] at hs
+      rcases hs with rfl | rfl <;> simp [isNameChar, isWordChar, Char.isAlphanum, Char.isAlpha, Char.isUpper, Char.isLower, Char.isDigit] at hw0
+  obtain _ | ⟨d0, ds'⟩ := ds
+  · contradiction
+  have h0 : isSpaceChar d0 = false := (digit_facts d0 (hds d0 (List.mem_cons_self ..))).1
+  have hd0eq : d0 ≠ '=' := by
+    have := hds d0 (List.mem_cons_self ..)
+    rintro rfl; simp [Char.isDigit] at this
+  have ht : ptrim (w0 :: w' ++ " = ".toList ++ d0 :: ds') = w0 :: w' ++ " = ".toList ++ d0 :: ds' := by
+    unfold ptrim
+    rw [List.cons_append, List.cons_append, ptrimL_cons_nonspace _ _ hw0s]
+    have hl' : (w0 :: (w' ++ " = ".toList ++ d0 :: ds')).getLast? = some dl := by
+      rw [← List.cons_append, ← List.cons_append, List.getLast?_append, hdl]; rfl
+    have := ptrimR_append_last (w0 :: (w' ++ " = ".toList ++ d0 :: ds')) [] dl hl' hdlf.1
+    simpa [ptrimR_nil] using this
+  have hn : takeName (w0 :: w' ++ " = ".toList ++ d0 :: ds') = (w0 :: w', ' ' :: '=' :: ' ' :: d0 :: ds') := by
+    have : w0 :: w' ++ " = ".toList ++ d0 :: ds' = (w0 :: w') ++ (' ' :: '=' :: ' ' :: d0 :: ds') := by simp
+    rw [this]
+    exact takeName_name _ _ hwall (by intro c hc; simp at hc; subst hc; decide)
+  have hown : ptrim (' ' :: d0 :: ds') = d0 :: ds' := by
+    unfold ptrim
+    have : ptrimL (' ' :: d0 :: ds') = d0 :: ds' := by
+      simp [ptrimL, h0, show isSpaceChar ' ' = true by decide]
+    rw [this]
+    have := ptrimR_append_last (d0 :: ds') [] dl hdl hdlf.1
+    simpa [ptrimR_nil] using this
+  have hr1 : ptrimL (' ' :: '=' :: ' ' :: d0 :: ds') = '=' :: ' ' :: d0 :: ds' := by
+    simp [ptrimL, show isSpaceChar ' ' = true by decide, show isSpaceChar '=' = false by decide]
+  have hdot' : (w0 == '.') = false := by
+    simpa using hdot
+  rw [parseStmts]
+  simp only [ht]
+  rw [show w0 :: w' ++ " = ".toList ++ d0 :: ds' = w0 :: (w' ++ " = ".toList ++ d0 :: ds') by simp]
+  simp only []
+  rw [show w0 :: (w' ++ " = ".toList ++ d0 :: ds') = w0 :: w' ++ " = ".toList ++ d0 :: ds' by simp]
+  simp only [hn, hr1]
+  simp [hown, hpe, hdot']
+  rfl
+
 /-- the text a renderer writes for the simplest statements: a label, an origin with a decimal address,
     a zone switch, a one-value data line with a decimal value -/
 def renderSimple : Stmt → Option (List Char)
@@ -216,6 +789,16 @@ def renderSimple : Stmt → Option (List Char)
   | .org (.num v) none => if 0 ≤ v then some (".org ".toList ++ Nat.toDigits 10 v.toNat) else none
   | .memzone z => if z.toList ≠ [] ∧ z.toList.all isWordChar then some (".memzone ".toList ++ z.toList) else none
   | .data 1 [.num v] => if 0 ≤ v then some (".byte ".toList ++ Nat.toDigits 10 v.toNat) else none
+  | .data 2 [.num v] => if 0 ≤ v then some (".2byte ".toList ++ Nat.toDigits 10 v.toNat) else none
+  | .data 4 [.num v] => if 0 ≤ v then some (".4byte ".toList ++ Nat.toDigits 10 v.toNat) else none
+  | .data 8 [.num v] => if 0 ≤ v then some (".8byte ".toList ++ Nat.toDigits 10 v.toNat) else none
+  | .fill (.num c) (.num v) =>
+    if 0 ≤ c ∧ 0 ≤ v then some (".fill ".toList ++ Nat.toDigits 10 c.toNat ++ ',' :: Nat.toDigits 10 v.toNat) else none
+  | .zerountil (.num v) => if 0 ≤ v then some (".zerountil ".toList ++ Nat.toDigits 10 v.toNat) else none
+  | .align (some (.num v)) => if 0 ≤ v then some (".align ".toList ++ Nat.toDigits 10 v.toNat) else none
+  | .const name (.num v) =>
+    if name.toList ≠ [] ∧ name.toList.all isNameChar ∧ name.toList.head? ≠ some '.' ∧ 0 ≤ v
+    then some (name.toList ++ " = ".toList ++ Nat.toDigits 10 v.toNat) else none
   | _ => none
 
 theorem parseStmts_nil (cfg : PCfg) (f : Nat) : parseStmts cfg (f + 1) [] = .ok [] := by
@@ -265,6 +848,93 @@ theorem parse_renderSimple (cfg : PCfg) (f : Nat) (s : Stmt) (txt : List Char) (
       rw [this]
       rw [Int.toNat_of_nonneg hv]
     · cases h
+  · -- data 2
+    rename_i v
+    split at h
+    · rename_i hv
+      cases h
+      have := parseStmts_2byte_decimal cfg f v.toNat
+      rw [this]
+      rw [Int.toNat_of_nonneg hv]
+    · cases h
+  · -- data 4
+    rename_i v
+    split at h
+    · rename_i hv
+      cases h
+      have := parseStmts_4byte_decimal cfg f v.toNat
+      rw [this]
+      rw [Int.toNat_of_nonneg hv]
+    · cases h
+  · -- data 8
+    rename_i v
+    split at h
+    · rename_i hv
+      cases h
+      have := parseStmts_8byte_decimal cfg f v.toNat
+      rw [this]
+      rw [Int.toNat_of_nonneg hv]
+    · cases h
+  · -- fill
+    rename_i c v
+    split at h
+    · rename_i hv
+      cases h
+      have := parseStmts_fill_decimal cfg f c.toNat v.toNat
+      rw [this]
+      rw [Int.toNat_of_nonneg hv.1, Int.toNat_of_nonneg hv.2]
+    · cases h
+  · -- zerountil
+    rename_i v
+    split at h
+    · rename_i hv
+      cases h
+      have := parseStmts_zerountil_decimal cfg f v.toNat
+      rw [this]
+      rw [Int.toNat_of_nonneg hv]
+    · cases h
+  · -- align
+    rename_i v
+    split at h
+    · rename_i hv
+      cases h
+      have := parseStmts_align_decimal cfg f v.toNat
+      rw [this]
+      rw [Int.toNat_of_nonneg hv]
+    · cases h
+  · -- const
+    rename_i name v
+    split at h
+    · rename_i hc
+      cases h
+      have hw : NameText name.toList := ⟨hc.1, by simpa [List.all_eq_true] using hc.2.1⟩
+      have := parseStmts_const_decimal cfg f name.toList hw hc.2.2.1 v.toNat
+      rw [this]
+      rw [Int.toNat_of_nonneg hc.2.2.2]
+      simp
+    · cases h
   · cases h
 
+theorem parseStmts_lead_space (cfg : PCfg) (f : Nat) (t : List Char) :
+    parseStmts cfg f (' ' :: t) = parseStmts cfg f t := by
+  rw [← parseStmts_trim cfg f (' ' :: t), ← parseStmts_trim cfg f t]
+  congr 1
+
+/-- labels written in front of a statement on one line, each followed by a blank -/
+def renderLabels : List String → List Char
+  | [] => []
+  | w :: ws => w.toList ++ ':' :: ' ' :: renderLabels ws
+
+theorem parse_labels_renderSimple (cfg : PCfg) (f : Nat) (ws : List String) (s : Stmt) (txt : List Char)
+    (hws : ∀ w ∈ ws, NameText w.toList) (h : renderSimple s = some txt) :
+    parseStmts cfg (f + 2 + ws.length) (renderLabels ws ++ txt) = .ok (ws.map .label ++ [s]) := by
+  induction ws with
+  | nil => simpa [renderLabels] using parse_renderSimple cfg f s txt h
+  | cons w ws ih =>
+    have hw := hws w (List.mem_cons_self ..)
+    have ih' := ih (fun x hx => hws x (List.mem_cons_of_mem _ hx))
+    have e : renderLabels (w :: ws) ++ txt = w.toList ++ ':' :: (' ' :: (renderLabels ws ++ txt)) := by
+      simp [renderLabels]
+    rw [e, List.length_cons, ← Nat.add_assoc, parseStmts_label_front cfg _ w.toList _ hw, parseStmts_lead_space, ih']
+    simp [bind, Except.bind]
 end BV
